@@ -29,9 +29,9 @@ def make_world(root):
     return root
 
 
-def fixture_state(root):
+def fixture_state(root, manifest_dir=None):
     out = {}
-    base = os.path.join(root, "crate", "fixture")
+    base = os.path.join(manifest_dir or os.path.join(root, "crate"), "fixture")
     for dp, dn, fn in os.walk(base):
         for f in fn:
             p = os.path.join(dp, f)
@@ -39,15 +39,34 @@ def fixture_state(root):
     return out
 
 
-def run_scenario(root, scenario, fail=()):
+def run_scenario(root, scenario, fail=(), workspace=None, manifest_rel=None):
     """-> dict(outcome, message, log=[{n,prog,argv}], tmp_left=[...], fixture_same, path_dirs={path: listing})"""
     make_world(root)
+    manifest_dir = os.path.join(root, "crate")
+    extra_path = ""
+    extra_env = {}
+    if workspace:
+        # a real (generated, pre-built) Cargo workspace: buildpack references are packaged by the
+        # real libcnb-package code with the real cargo; docker/pack stay stand-ins
+        subprocess.run(["cp", "-a", workspace, os.path.join(root, "ws")], check=True)
+        manifest_dir = os.path.join(root, "ws", manifest_rel)
+        for rel, data in FIXTURE_FILES.items():
+            p = os.path.join(manifest_dir, "fixture", rel)
+            os.makedirs(os.path.dirname(p), exist_ok=True)
+            open(p, "w").write(data)
+        cargo = shutil.which("cargo") or "/root/.cargo/bin/cargo"
+        extra_path = ":" + os.path.dirname(cargo) + ":/usr/bin:/bin"
+        extra_env = {"CARGO": cargo, "HOME": os.environ.get("HOME", "/root"), "CARGO_NET_OFFLINE": "true"}
+        for k in ("RUSTUP_HOME", "CARGO_HOME", "RUSTUP_TOOLCHAIN"):
+            if k in os.environ:
+                extra_env[k] = os.environ[k]
     sp = os.path.join(root, "scenario.json")
     json.dump(scenario, open(sp, "w"))
     log = os.path.join(root, "cli.log")
-    env = {"PATH": os.path.join(root, "bin"), "TMPDIR": os.path.join(root, "tmp"), "CARGO_MANIFEST_DIR": os.path.join(root, "crate"),
+    env = {"PATH": os.path.join(root, "bin") + extra_path, "TMPDIR": os.path.join(root, "tmp"), "CARGO_MANIFEST_DIR": manifest_dir,
            "FAKECLI_LOG": log, "FAKECLI_FAIL": ",".join(str(i) for i in fail), "RUST_BACKTRACE": "0"}
-    r = subprocess.run([RUNNER, sp], env=env, cwd=root, stdout=subprocess.PIPE, stderr=subprocess.PIPE, timeout=120)
+    env.update(extra_env)
+    r = subprocess.run([RUNNER, sp], env=env, cwd=root, stdout=subprocess.PIPE, stderr=subprocess.PIPE, timeout=600)
     res = {"outcome": "abort", "message": r.stderr.decode(errors="replace")[-300:], "exit": r.returncode}
     out = r.stdout.decode(errors="replace").strip().splitlines()
     if r.returncode == 0 and out:
@@ -57,7 +76,7 @@ def run_scenario(root, scenario, fail=()):
             pass
     res["log"] = [json.loads(l) for l in open(log)] if os.path.exists(log) else []
     res["tmp_left"] = sorted(os.listdir(os.path.join(root, "tmp")))
-    res["fixture_same"] = fixture_state(root) == FIXTURE_FILES
+    res["fixture_same"] = fixture_state(root, manifest_dir) == FIXTURE_FILES
     return res
 
 
